@@ -114,7 +114,10 @@ def main(argv=None):
             with open(args.replay) as fh:
                 rp = json.load(fh)
             only = rp["construct"]
-            print(f"replaying {rp['rule']} on construct {only}")
+            if args.root == "/repo" and os.path.isdir(os.path.join(rp.get("root", ""), "torchsde")) and \
+                    "TSVERIF_ROOT" not in os.environ:
+                args.root = rp["root"]
+            print(f"replaying {rp['rule']} on construct {only} (root {args.root})")
         code, rep = run_property(pid, args.root, args.tier, seed, write=not args.no_write and not args.replay,
                                  only_construct=only)
         if args.tier == "thorough":
